@@ -56,4 +56,10 @@ def cases(seed=0, n=6):
     for k, (cond, x, y) in enumerate((([True, False, True], [1.5, 2.5, 3.5], -1.0), ([[True, False], [False, True]], [[1, 2], [3, 4]], [10, 20]), ([False, True], [1, 2], 0.5),
                                       ([True, False], 7, [1, 2]))):
         out.append({'id': f'where{k}', 'fn': 'np_where', 'cond': cond, 'x': x, 'y': y})
+    for k, (shift, axis) in enumerate(((1, 0), (-1, 0), (1, 1), (-1, 1), (2, 1), (0, 0), (5, 1))):
+        out.append({'id': f'roll{k}', 'fn': 'np_roll', 'shift': shift, 'axis': axis})
+    for k, (lo, hi) in enumerate(((0, None), (None, 3), (2, 5), (-3, 0))):
+        out.append({'id': f'clip{k}', 'fn': 'np_clip', 'lo': lo, 'hi': hi})
+    for k, vals in enumerate(([-1.0, 5.0], [3.0], [-3.0, -1.0, 2.0, 4.0], [4.0, -1.0, 0.0], [0.0, 10.0, -2.0, -7.0, 1.5, 2.5])):
+        out.append({'id': f'median{k}', 'fn': 'np_median', 'vals': vals})
     return out
